@@ -107,12 +107,12 @@ var c02Table = map[string]triage{
 	`x/registry/types.DecodeQueryType # index:(github.com/ethereum/go-ethereum/accounts/abi.Arguments).Unpack()#0[1]`:            {"library", "as above"},
 	`x/registry/types.DecodeQueryType # assert:string <- (github.com/ethereum/go-ethereum/accounts/abi.Arguments).Unpack()#0[0]`: {"library", "argument 0 of the list is of ABI type string"},
 	`x/registry/types.DecodeQueryType # assert:byte <- (github.com/ethereum/go-ethereum/accounts/abi.Arguments).Unpack()#0[1]`:   {"library", "argument 1 of the list is of ABI type bytes"},
-	`utils.Remove0xPrefix # index:param0[:2]`:                                                                                {"linked", "under has0xPrefix, which tests len >= 2 (PREFIX-LEN)"},
-	`(x/reporter/keeper.Keeper).DivvyingTips # div:Quo by x/reporter/types.DelegationsAmounts.Total`:                         {"accepted", "snapshot total >= minimum stake: ReporterStake stores the snapshot and SubmitValue rejects stake < MinStakeAmount (C07 ADMIT, C10)"},
-	`(x/reporter/keeper.Keeper).DivvyingTips # err-ext:coll:x/reporter/keeper.Keeper.Report.Get`:                             {"accepted", "snapshot written by ReporterStake, which dominates SetValue, under the same (queryId, reporter, height) (C07 ADMIT)"},
-	`(x/reporter/keeper.Keeper).DivvyingTips # err-ext:coll:x/reporter/keeper.Keeper.Reporters.Get`:                          {"linked", "reporters are never removed (REPORTERS-NO-REMOVE)"},
-	`(x/reporter/keeper.Keeper).DivvyingTips # err-ext:coll:x/reporter/keeper.Keeper.SelectorTips.Get {not-found tolerated}`: {"infrastructure", "not-found is tolerated (first tip of a selector)"},
-	`x/oracle/keeper.CalculateRewardAmount # div:Quo by param2`:                                                              {"accepted", "totalPower sums the powers of the listed reporters; a stored report has power >= 1 (C07 ADMIT min stake / PowerReduction)"},
+	`utils.Remove0xPrefix # index:param0[:2]`:                                                                                   {"linked", "under has0xPrefix, which tests len >= 2 (PREFIX-LEN)"},
+	`(x/reporter/keeper.Keeper).DivvyingTips # div:Quo by x/reporter/types.DelegationsAmounts.Total`:                            {"accepted", "snapshot total >= minimum stake: ReporterStake stores the snapshot and SubmitValue rejects stake < MinStakeAmount (C07 ADMIT, C10)"},
+	`(x/reporter/keeper.Keeper).DivvyingTips # err-ext:coll:x/reporter/keeper.Keeper.Report.Get`:                                {"accepted", "snapshot written by ReporterStake, which dominates SetValue, under the same (queryId, reporter, height) (C07 ADMIT)"},
+	`(x/reporter/keeper.Keeper).DivvyingTips # err-ext:coll:x/reporter/keeper.Keeper.Reporters.Get`:                             {"linked", "reporters are never removed (REPORTERS-NO-REMOVE)"},
+	`(x/reporter/keeper.Keeper).addSelectorTips # err-ext:coll:x/reporter/keeper.Keeper.SelectorTips.Get {not-found tolerated}`: {"infrastructure", "not-found is tolerated (first tip of a selector); the read moved from DivvyingTips into this helper with the D6 repair"},
+	`x/oracle/keeper.CalculateRewardAmount # div:Quo by param2`:                                                                 {"accepted", "totalPower sums the powers of the listed reporters; a stored report has power >= 1 (C07 ADMIT min stake / PowerReduction)"},
 
 	// ---- reporter EndBlock
 	`(x/reporter/keeper.Keeper).TrackStakeChange # err-ext:coll:x/reporter/keeper.Keeper.Tracker.Get`:              {"accepted", "Tracker written in InitGenesis (GENESIS-WRITES)"},
